@@ -621,4 +621,466 @@ theorem readsAs_netmask : ∀ len, len ≤ 32 → ReadsAs (2 ^ 32 - 2 ^ (32 - le
 theorem readsAs_hostmask : ∀ len, len ≤ 32 → 0 < len → len < 32 → ReadsAs (2 ^ (32 - len) - 1) len := by
   unfold ReadsAs; decide
 
+/-! ### hex digits -/
+theorem hexd_fin : ∀ d : Fin 16, isHexDigit (Nat.digitChar d.val) = true ∧ hexVal (Nat.digitChar d.val) = d.val ∧
+    Nat.digitChar d.val ≠ ':' ∧ Nat.digitChar d.val ≠ '.' ∧ Nat.digitChar d.val ≠ '/' := by decide
+theorem isHex_digitChar (d : Nat) (h : d < 16) : isHexDigit (Nat.digitChar d) = true := (hexd_fin ⟨d, h⟩).1
+theorem hexVal_digitChar (d : Nat) (h : d < 16) : hexVal (Nat.digitChar d) = d := (hexd_fin ⟨d, h⟩).2.1
+
+theorem toHexRev_lt (n : Nat) (h : n < 16) : toHexRev n = [Nat.digitChar n] := by
+  rw [toHexRev]; simp [h]
+theorem toHexRev_ge (n : Nat) (h : ¬ n < 16) :
+    toHexRev n = Nat.digitChar (n % 16) :: toHexRev (n / 16) := by
+  rw [toHexRev]; simp [h]
+
+theorem toHex_cases (a : Nat) (h : a < 65536) :
+    (a < 16 ∧ toHex a = [Nat.digitChar a]) ∨
+    (16 ≤ a ∧ a < 256 ∧ toHex a = [Nat.digitChar (a / 16), Nat.digitChar (a % 16)]) ∨
+    (256 ≤ a ∧ a < 4096 ∧ toHex a = [Nat.digitChar (a / 256), Nat.digitChar (a / 16 % 16), Nat.digitChar (a % 16)]) ∨
+    (4096 ≤ a ∧ toHex a = [Nat.digitChar (a / 4096), Nat.digitChar (a / 256 % 16), Nat.digitChar (a / 16 % 16),
+      Nat.digitChar (a % 16)]) := by
+  unfold toHex
+  by_cases h1 : a < 16
+  · left; exact ⟨h1, by rw [toHexRev_lt a h1]; rfl⟩
+  · by_cases h2 : a < 256
+    · right; left
+      refine ⟨by omega, h2, ?_⟩
+      rw [toHexRev_ge a h1, toHexRev_lt (a / 16) (by omega)]; rfl
+    · by_cases h3 : a < 4096
+      · right; right; left
+        refine ⟨by omega, h3, ?_⟩
+        rw [toHexRev_ge a h1, toHexRev_ge (a / 16) (by omega), toHexRev_lt (a / 16 / 16) (by omega)]
+        have : a / 16 / 16 = a / 256 := by omega
+        simp [this]
+      · right; right; right
+        refine ⟨by omega, ?_⟩
+        rw [toHexRev_ge a h1, toHexRev_ge (a / 16) (by omega), toHexRev_ge (a / 16 / 16) (by omega),
+          toHexRev_lt (a / 16 / 16 / 16) (by omega)]
+        have e1 : a / 16 / 16 = a / 256 := by omega
+        have e2 : a / 16 / 16 / 16 = a / 4096 := by omega
+        rw [e2, e1]; rfl
+
+theorem ofHex4 (d3 d2 d1 d0 : Nat) (h3 : d3 < 16) (h2 : d2 < 16) (h1 : d1 < 16) (h0 : d0 < 16) :
+    ofHex [Nat.digitChar d3, Nat.digitChar d2, Nat.digitChar d1, Nat.digitChar d0] =
+      some (((d3 * 16 + d2) * 16 + d1) * 16 + d0) := by
+  simp [ofHex, ofHexAux, isHex_digitChar, hexVal_digitChar, h3, h2, h1, h0]
+theorem ofHex3 (d2 d1 d0 : Nat) (h2 : d2 < 16) (h1 : d1 < 16) (h0 : d0 < 16) :
+    ofHex [Nat.digitChar d2, Nat.digitChar d1, Nat.digitChar d0] = some ((d2 * 16 + d1) * 16 + d0) := by
+  simp [ofHex, ofHexAux, isHex_digitChar, hexVal_digitChar, h2, h1, h0]
+theorem ofHex2 (d1 d0 : Nat) (h1 : d1 < 16) (h0 : d0 < 16) :
+    ofHex [Nat.digitChar d1, Nat.digitChar d0] = some (d1 * 16 + d0) := by
+  simp [ofHex, ofHexAux, isHex_digitChar, hexVal_digitChar, h1, h0]
+theorem ofHex1 (d0 : Nat) (h0 : d0 < 16) : ofHex [Nat.digitChar d0] = some d0 := by
+  simp [ofHex, ofHexAux, isHex_digitChar, hexVal_digitChar, h0]
+
+theorem ofHex_hex4 (h : Nat) (hh : h < 65536) : ofHex (hex4 h) = some h := by
+  unfold hex4
+  rw [ofHex4 _ _ _ _ (by omega) (by omega) (by omega) (by omega)]
+  congr 1; omega
+
+theorem ofHex_toHex (a : Nat) (h : a < 65536) : ofHex (toHex a) = some a := by
+  rcases toHex_cases a h with ⟨h1, e⟩ | ⟨_, h2, e⟩ | ⟨_, h3, e⟩ | ⟨_, e⟩ <;> rw [e]
+  · exact ofHex1 a h1
+  · rw [ofHex2 _ _ (by omega) (by omega)]; congr 1; omega
+  · rw [ofHex3 _ _ _ (by omega) (by omega) (by omega)]; congr 1; omega
+  · rw [ofHex4 _ _ _ _ (by omega) (by omega) (by omega) (by omega)]; congr 1; omega
+
+theorem toHex_props (a : Nat) (h : a < 65536) :
+    toHex a ≠ [] ∧ (toHex a).length ≤ 4 ∧ (∀ c ∈ toHex a, isHexDigit c = true ∧ c ≠ ':' ∧ c ≠ '.' ∧ c ≠ '/') := by
+  have hd : ∀ d, d < 16 → isHexDigit (Nat.digitChar d) = true ∧ Nat.digitChar d ≠ ':' ∧ Nat.digitChar d ≠ '.' ∧
+      Nat.digitChar d ≠ '/' :=
+    fun d hd => ⟨(hexd_fin ⟨d, hd⟩).1, (hexd_fin ⟨d, hd⟩).2.2⟩
+  rcases toHex_cases a h with ⟨h1, e⟩ | ⟨_, h2, e⟩ | ⟨_, h3, e⟩ | ⟨_, e⟩ <;> rw [e] <;>
+    refine ⟨by simp, by simp, ?_⟩ <;> intro c hc <;> simp only [List.mem_cons, List.not_mem_nil, or_false] at hc
+  · rw [hc]; exact hd _ h1
+  · rcases hc with hc | hc <;> rw [hc] <;> exact hd _ (by omega)
+  · rcases hc with hc | hc | hc <;> rw [hc] <;> exact hd _ (by omega)
+  · rcases hc with hc | hc | hc | hc <;> rw [hc] <;> exact hd _ (by omega)
+
+theorem hex4_chars (h : Nat) : ∀ c ∈ hex4 h, isHexDigit c = true ∧ c ≠ ':' ∧ c ≠ '.' ∧ c ≠ '/' := by
+  have hd : ∀ d, d < 16 → isHexDigit (Nat.digitChar d) = true ∧ Nat.digitChar d ≠ ':' ∧ Nat.digitChar d ≠ '.' ∧
+      Nat.digitChar d ≠ '/' :=
+    fun d hd => ⟨(hexd_fin ⟨d, hd⟩).1, (hexd_fin ⟨d, hd⟩).2.2⟩
+  intro c hc
+  simp only [hex4, List.mem_cons, List.not_mem_nil, or_false] at hc
+  rcases hc with hc | hc | hc | hc <;> rw [hc] <;> exact hd _ (by omega)
+
+theorem parseHextet_toHex (a : Nat) (h : a < 65536) : parseHextet (toHex a) = some a := by
+  unfold parseHextet
+  have hp := toHex_props a h
+  have : (toHex a).all isHexDigit = true := List.all_eq_true.mpr (fun c hc => (hp.2.2 c hc).1)
+  have hl : ¬ (toHex a).length > 4 := by omega
+  simp only [this, Bool.not_true, Bool.false_eq_true, if_false, hl, ofHex_toHex a h]
+
+theorem toHex_eq_zero (a : Nat) (h : a < 65536) : (toHex a == ['0']) = true → a = 0 := by
+  intro he
+  have he : toHex a = ['0'] := by simpa using he
+  have := ofHex_toHex a h
+  rw [he] at this
+  have h0 : ofHex ['0'] = some 0 := by decide
+  rw [h0] at this
+  exact (Option.some.inj this).symm
+
+
+/-! ### exploded text -/
+theorem hextets_lt (n : Nat) : ∀ h ∈ hextets n, h < 65536 := by
+  intro h hh; simp [hextets] at hh; omega
+
+theorem splitOn_exploded (n : Nat) : splitOn ':' (explodedV6 n) = (hextets n).map hex4 := by
+  unfold explodedV6
+  apply splitOn_join
+  · simp [hextets]
+  · intro w hw
+    rw [List.mem_map] at hw
+    obtain ⟨b, _, rfl⟩ := hw
+    exact fun c hc => (hex4_chars b c hc).2.1
+
+theorem hextets_sum (n : Nat) (h : n < 2 ^ 128) :
+    n % 65536 + (n / 2 ^ 16 % 65536 * 65536 + (n / 2 ^ 32 % 65536 * 65536 ^ 2 + (n / 2 ^ 48 % 65536 * 65536 ^ 3 +
+      (n / 2 ^ 64 % 65536 * 65536 ^ 4 + (n / 2 ^ 80 % 65536 * 65536 ^ 5 + (n / 2 ^ 96 % 65536 * 65536 ^ 6 +
+      n / 2 ^ 112 % 65536 * 65536 ^ 7)))))) = n := by
+  omega
+
+theorem sumPow_exploded (n : Nat) (h : n < 2 ^ 128) :
+    sumPow 65536 ofHex 0 (splitOn ':' (explodedV6 n)).reverse = some n := by
+  rw [splitOn_exploded]
+  have hl := hextets_lt n
+  simp only [hextets, List.mem_cons, List.not_mem_nil, or_false, forall_eq_or_imp, forall_eq] at hl
+  simp only [hextets, List.map, List.reverse_cons, List.reverse_nil, List.nil_append, List.cons_append, sumPow]
+  rw [ofHex_hex4 _ hl.1, ofHex_hex4 _ hl.2.1, ofHex_hex4 _ hl.2.2.1, ofHex_hex4 _ hl.2.2.2.1,
+    ofHex_hex4 _ hl.2.2.2.2.1, ofHex_hex4 _ hl.2.2.2.2.2.1, ofHex_hex4 _ hl.2.2.2.2.2.2.1, ofHex_hex4 _ hl.2.2.2.2.2.2.2]
+  simp only [Nat.zero_add, Nat.pow_zero, Nat.mul_one, Nat.pow_one, Nat.add_zero]
+  congr 1
+  exact hextets_sum n h
+
+
+/-! ### compressed text -/
+
+/-- outcome of the `_compress_hextets` loop on eight groups: either nothing to shorten, or a run of
+zero groups of length ≥ 2 inside the address -/
+def runOk (zs : List Bool) (st : Run) : Bool :=
+  if st.bestLen ≤ 1 then true else
+  match st.bestStart with
+  | none => false
+  | some s => decide (s + st.bestLen ≤ 8) && (List.range 8).all (fun i => !(decide (s ≤ i) && decide (i < s + st.bestLen)) || zs.getD i false)
+
+theorem runLoop_ok : ∀ b0 b1 b2 b3 b4 b5 b6 b7 : Bool,
+    runOk [b0, b1, b2, b3, b4, b5, b6, b7] (runLoop {} 0 [b0, b1, b2, b3, b4, b5, b6, b7]) = true := by
+  decide
+
+
+theorem shl_or (a h : Nat) (hh : h < 65536) : (a <<< 16) ||| h = a * 65536 + h := by
+  have := Nat.shiftLeft_add_eq_or_of_lt (i := 16) (b := h) (by simpa using hh) a
+  rw [← this, Nat.shiftLeft_eq]
+
+theorem mul_or (a h : Nat) (hh : h < 65536) : a * 65536 ||| h = a * 65536 + h := by
+  rw [← shl_or a h hh, Nat.shiftLeft_eq]
+
+/-- the value of eight groups, most significant first -/
+def val8 (h0 h1 h2 h3 h4 h5 h6 h7 : Nat) : Nat :=
+  ((((((h0 * 65536 + h1) * 65536 + h2) * 65536 + h3) * 65536 + h4) * 65536 + h5) * 65536 + h6) * 65536 + h7
+
+theorem accHextets_cons (acc : Nat) (x : Str) (xs : List Str) (h : Nat) (hp : parseHextet x = some h) (hl : h < 65536) :
+    accHextets acc (x :: xs) = accHextets (acc * 65536 + h) xs := by
+  simp only [accHextets, hp, shl_or acc h hl]
+
+theorem accHextets_nil (acc : Nat) : accHextets acc [] = some acc := rfl
+theorem shl16 (a k : Nat) : a <<< (16 * k) = a * 65536 ^ k := by
+  rw [Nat.shiftLeft_eq, Nat.pow_mul]
+
+theorem compress_parse_aux (x0 x1 x2 x3 x4 x5 x6 x7 : Str) (h0 h1 h2 h3 h4 h5 h6 h7 : Nat)
+    (n0 : x0 ≠ []) (n1 : x1 ≠ []) (n2 : x2 ≠ []) (n3 : x3 ≠ []) (n4 : x4 ≠ []) (n5 : x5 ≠ []) (n6 : x6 ≠ []) (n7 : x7 ≠ [])
+    (p0 : parseHextet x0 = some h0) (p1 : parseHextet x1 = some h1) (p2 : parseHextet x2 = some h2)
+    (p3 : parseHextet x3 = some h3) (p4 : parseHextet x4 = some h4) (p5 : parseHextet x5 = some h5)
+    (p6 : parseHextet x6 = some h6) (p7 : parseHextet x7 = some h7)
+    (z0 : (x0 == ['0']) = true → h0 = 0) (z1 : (x1 == ['0']) = true → h1 = 0) (z2 : (x2 == ['0']) = true → h2 = 0)
+    (z3 : (x3 == ['0']) = true → h3 = 0) (z4 : (x4 == ['0']) = true → h4 = 0) (z5 : (x5 == ['0']) = true → h5 = 0)
+    (z6 : (x6 == ['0']) = true → h6 = 0) (z7 : (x7 == ['0']) = true → h7 = 0)
+    (l0 : h0 < 65536) (l1 : h1 < 65536) (l2 : h2 < 65536) (l3 : h3 < 65536) (l4 : h4 < 65536) (l5 : h5 < 65536)
+    (l6 : h6 < 65536) (l7 : h7 < 65536) :
+    3 ≤ (compressHextets [x0, x1, x2, x3, x4, x5, x6, x7]).length ∧
+    v6FromParts (compressHextets [x0, x1, x2, x3, x4, x5, x6, x7]) = some (val8 h0 h1 h2 h3 h4 h5 h6 h7) := by
+  have ok := runLoop_ok (x0 == ['0']) (x1 == ['0']) (x2 == ['0']) (x3 == ['0']) (x4 == ['0']) (x5 == ['0'])
+    (x6 == ['0']) (x7 == ['0'])
+  unfold compressHextets
+  simp only [List.map]
+  generalize runLoop {} 0 [x0 == ['0'], x1 == ['0'], x2 == ['0'], x3 == ['0'], x4 == ['0'], x5 == ['0'],
+    x6 == ['0'], x7 == ['0']] = st at ok ⊢
+  unfold runOk at ok
+  unfold compressWith
+  by_cases hb : st.bestLen ≤ 1
+  · have : ¬ st.bestLen > 1 := by omega
+    simp only [this, if_false]
+    refine ⟨by simp, ?_⟩
+    simp only [v6FromParts, List.length_cons, List.length_nil, List.drop, List.dropLast, emptyIdx, n1, n2, n3, n4, n5, n6,
+      if_false]
+    simp [n0, n7, accHextets_nil, accHextets_cons _ _ _ _ p0 l0, accHextets_cons _ _ _ _ p1 l1, accHextets_cons _ _ _ _ p2 l2,
+      accHextets_cons _ _ _ _ p3 l3, accHextets_cons _ _ _ _ p4 l4, accHextets_cons _ _ _ _ p5 l5,
+      accHextets_cons _ _ _ _ p6 l6, accHextets_cons _ _ _ _ p7 l7, val8]
+  · simp only [hb, if_false] at ok
+    have hgt : st.bestLen > 1 := by omega
+    cases hs : st.bestStart with
+    | none => rw [hs] at ok; cases ok
+    | some s =>
+      rw [hs] at ok
+      simp only [Bool.and_eq_true, decide_eq_true_eq, List.all_eq_true, List.mem_range, Bool.or_eq_true,
+        Bool.not_eq_true', Bool.and_eq_false_iff, decide_eq_false_iff_not] at ok
+      obtain ⟨hle, hall⟩ := ok
+      simp only [hgt, if_true, Option.getD_some]
+      generalize st.bestLen = l at *
+      have hz : ∀ i, i < 8 → s ≤ i → i < s + l →
+          [x0 == ['0'], x1 == ['0'], x2 == ['0'], x3 == ['0'], x4 == ['0'], x5 == ['0'], x6 == ['0'],
+            x7 == ['0']].getD i false = true := by
+        intro i hi h1 h2
+        rcases hall i hi with (h | h) | h
+        · omega
+        · omega
+        · exact h
+      have g0 : (if s ≤ 0 ∧ 0 < s + l then 0 else h0) = h0 := by
+        split
+        · rename_i h; exact (z0 (by simpa using hz 0 (by omega) h.1 h.2)).symm
+        · rfl
+      have g1 : (if s ≤ 1 ∧ 1 < s + l then 0 else h1) = h1 := by
+        split
+        · rename_i h; exact (z1 (by simpa using hz 1 (by omega) h.1 h.2)).symm
+        · rfl
+      have g2 : (if s ≤ 2 ∧ 2 < s + l then 0 else h2) = h2 := by
+        split
+        · rename_i h; exact (z2 (by simpa using hz 2 (by omega) h.1 h.2)).symm
+        · rfl
+      have g3 : (if s ≤ 3 ∧ 3 < s + l then 0 else h3) = h3 := by
+        split
+        · rename_i h; exact (z3 (by simpa using hz 3 (by omega) h.1 h.2)).symm
+        · rfl
+      have g4 : (if s ≤ 4 ∧ 4 < s + l then 0 else h4) = h4 := by
+        split
+        · rename_i h; exact (z4 (by simpa using hz 4 (by omega) h.1 h.2)).symm
+        · rfl
+      have g5 : (if s ≤ 5 ∧ 5 < s + l then 0 else h5) = h5 := by
+        split
+        · rename_i h; exact (z5 (by simpa using hz 5 (by omega) h.1 h.2)).symm
+        · rfl
+      have g6 : (if s ≤ 6 ∧ 6 < s + l then 0 else h6) = h6 := by
+        split
+        · rename_i h; exact (z6 (by simpa using hz 6 (by omega) h.1 h.2)).symm
+        · rfl
+      have g7 : (if s ≤ 7 ∧ 7 < s + l then 0 else h7) = h7 := by
+        split
+        · rename_i h; exact (z7 (by simpa using hz 7 (by omega) h.1 h.2)).symm
+        · rfl
+      rw [← g0, ← g1, ← g2, ← g3, ← g4, ← g5, ← g6, ← g7]
+      clear g0 g1 g2 g3 g4 g5 g6 g7 hz hall z0 z1 z2 z3 z4 z5 z6 z7
+      have hsv : s = 0 ∨ s = 1 ∨ s = 2 ∨ s = 3 ∨ s = 4 ∨ s = 5 ∨ s = 6 := by omega
+      have hlv : l = 2 ∨ l = 3 ∨ l = 4 ∨ l = 5 ∨ l = 6 ∨ l = 7 ∨ l = 8 := by omega
+      rcases hsv with rfl | rfl | rfl | rfl | rfl | rfl | rfl <;>
+        rcases hlv with rfl | rfl | rfl | rfl | rfl | rfl | rfl <;>
+        first
+        | (exfalso; revert hle; decide)
+        | (simp only [Nat.succ_ne_self, ↓reduceIte, Nat.reduceAdd, List.length_cons, List.length_nil, Nat.zero_add,
+            Nat.reduceEqDiff, List.take_succ_cons, List.take_zero, List.cons_append, List.nil_append, List.drop_succ_cons,
+            List.drop_zero, List.drop_nil, List.take_nil, Nat.reduceLeDiff, List.append_nil]
+           refine ⟨trivial, ?_⟩
+           simp only [v6FromParts, gt_iff_lt, Nat.reduceLT, List.dropLast_cons_cons, List.length_cons, List.length_nil,
+             Nat.zero_add, Nat.reduceAdd, List.dropLast_singleton, List.dropLast_nil, emptyIdx, n0, n1, n2, n3, n4, n5, n6, n7,
+             List.head?_cons, Option.getD_some, Nat.sub_self, ne_eq, List.drop_succ_cons, List.drop_zero, List.drop_nil,
+             ↓reduceIte, not_true_eq_false, and_self, List.getLast?_cons_cons, List.getLast?_singleton, Nat.add_one_sub_one,
+             reduceCtorEq, not_false_eq_true, and_true, and_false, false_and, true_and, Nat.reduceSub, Nat.lt_one_iff,
+             Nat.reduceEqDiff, Nat.reduceLeDiff, List.take_succ_cons, List.take_zero, List.take_nil]
+           simp only [accHextets_nil, accHextets_cons _ _ _ _ p0 l0, accHextets_cons _ _ _ _ p1 l1,
+             accHextets_cons _ _ _ _ p2 l2, accHextets_cons _ _ _ _ p3 l3, accHextets_cons _ _ _ _ p4 l4,
+             accHextets_cons _ _ _ _ p5 l5, accHextets_cons _ _ _ _ p6 l6, accHextets_cons _ _ _ _ p7 l7]
+           simp only [val8, and_false, false_and, and_true, true_and, and_self, ↓reduceIte, Option.some.injEq, Nat.reduceMul,
+             Nat.reduceLeDiff, Nat.reduceLT, Nat.lt_irrefl, Nat.le_refl, Nat.not_succ_le_zero, Nat.reduceAdd]
+           omega)
+
+
+theorem compressWith_mem (st : Run) (hs : List Str) : ∀ p ∈ compressWith st hs, p = [] ∨ p ∈ hs := by
+  intro p hp
+  unfold compressWith at hp
+  split at hp
+  · simp only at hp
+    have key : ∀ (l : List Str), (∀ q ∈ l, q = [] ∨ q ∈ hs) → ∀ a b, ∀ q ∈ l.take a ++ [[]] ++ l.drop b, q = [] ∨ q ∈ hs := by
+      intro l hl a b q hq
+      simp only [List.mem_append, List.mem_cons, List.not_mem_nil, or_false] at hq
+      rcases hq with (hq | hq) | hq
+      · exact hl q (List.mem_of_mem_take hq)
+      · exact Or.inl hq
+      · exact hl q (List.mem_of_mem_drop hq)
+    have hl : ∀ q ∈ (if st.bestStart.getD 0 + st.bestLen = hs.length then hs ++ [[]] else hs), q = [] ∨ q ∈ hs := by
+      intro q hq
+      split at hq
+      · simp only [List.mem_append, List.mem_cons, List.not_mem_nil, or_false] at hq
+        rcases hq with hq | hq
+        · exact Or.inr hq
+        · exact Or.inl hq
+      · exact Or.inr hq
+    split at hp
+    · rcases List.mem_cons.mp hp with hp | hp
+      · exact Or.inl hp
+      · exact key _ hl _ _ p hp
+    · exact key _ hl _ _ p hp
+  · exact Or.inr hp
+
+theorem join_ne_nil (a b : Str) (rest : List Str) : join [':'] (a :: b :: rest) ≠ [] := by
+  simp [join]
+
+theorem val8_hextets (n : Nat) (h : n < 2 ^ 128) :
+    val8 (n / 2 ^ 112 % 65536) (n / 2 ^ 96 % 65536) (n / 2 ^ 80 % 65536) (n / 2 ^ 64 % 65536)
+      (n / 2 ^ 48 % 65536) (n / 2 ^ 32 % 65536) (n / 2 ^ 16 % 65536) (n % 65536) = n := by
+  unfold val8; omega
+
+theorem stdV6Int_of_parts (parts : List Str) (n : Nat) (hlen : 3 ≤ parts.length) (hv : v6FromParts parts = some n)
+    (hmem : ∀ p ∈ parts, (∀ c ∈ p, c ≠ ':') ∧ (∀ c ∈ p, c ≠ '.')) : stdV6Int (join [':'] parts) = some n := by
+  unfold stdV6Int
+  have hne : parts ≠ [] := by intro e; rw [e] at hlen; simp at hlen
+  have hj : join [':'] parts ≠ [] := by
+    match parts, hlen with
+    | a :: b :: rest, _ => exact join_ne_nil a b rest
+  rw [if_neg hj, splitOn_join ':' parts hne (fun w hw => (hmem w hw).1)]
+  have hl3 : ¬ parts.length < 3 := by omega
+  have hlast : (parts.getLast?.getD []).contains '.' = false := by
+    apply contains_false
+    cases hgl : parts.getLast? with
+    | none => intro c hc; simp at hc
+    | some w =>
+      have : w ∈ parts := List.mem_of_getLast? hgl
+      simpa using (hmem w this).2
+  simp only [hl3, if_false, hlast, Bool.false_eq_true, hv]
+
+theorem stdV6Int_strV6 (n : Nat) (h : n < 2 ^ 128) : stdV6Int (strV6 n) = some n := by
+  have hl := hextets_lt n
+  simp only [hextets, List.mem_cons, List.not_mem_nil, or_false, forall_eq_or_imp, forall_eq] at hl
+  obtain ⟨l0, l1, l2, l3, l4, l5, l6, l7⟩ := hl
+  have key := compress_parse_aux _ _ _ _ _ _ _ _ _ _ _ _ _ _ _ _
+    (toHex_props _ l0).1 (toHex_props _ l1).1 (toHex_props _ l2).1 (toHex_props _ l3).1
+    (toHex_props _ l4).1 (toHex_props _ l5).1 (toHex_props _ l6).1 (toHex_props _ l7).1
+    (parseHextet_toHex _ l0) (parseHextet_toHex _ l1) (parseHextet_toHex _ l2) (parseHextet_toHex _ l3)
+    (parseHextet_toHex _ l4) (parseHextet_toHex _ l5) (parseHextet_toHex _ l6) (parseHextet_toHex _ l7)
+    (toHex_eq_zero _ l0) (toHex_eq_zero _ l1) (toHex_eq_zero _ l2) (toHex_eq_zero _ l3)
+    (toHex_eq_zero _ l4) (toHex_eq_zero _ l5) (toHex_eq_zero _ l6) (toHex_eq_zero _ l7)
+    l0 l1 l2 l3 l4 l5 l6 l7
+  rw [val8_hextets n h] at key
+  have hmem : ∀ p ∈ compressHextets ((hextets n).map toHex), (∀ c ∈ p, c ≠ ':') ∧ (∀ c ∈ p, c ≠ '.') := by
+    intro p hp
+    rcases compressWith_mem _ _ p hp with rfl | hp
+    · exact ⟨fun c hc => by simp at hc, fun c hc => by simp at hc⟩
+    · rw [List.mem_map] at hp
+      obtain ⟨g, hg, rfl⟩ := hp
+      have := toHex_props g (hextets_lt n g hg)
+      exact ⟨fun c hc => (this.2.2 c hc).2.1, fun c hc => (this.2.2 c hc).2.2.1⟩
+  exact stdV6Int_of_parts _ n key.1 key.2 hmem
+
+/-! ### IPv6Obj: the object of `(ip, len)` and its derived values -/
+def mk6 (ip len : Nat) : Obj := ⟨ip, ip &&& ipIntFromPrefix 128 len, len⟩
+
+theorem mem_join (sep : Char) (ws : List Str) (c : Char) (hc : c ∈ join [sep] ws) : c = sep ∨ ∃ w ∈ ws, c ∈ w := by
+  induction ws with
+  | nil => simp [join] at hc
+  | cons w ws ih =>
+    cases ws with
+    | nil => simp only [join] at hc; exact Or.inr ⟨w, by simp, hc⟩
+    | cons w2 ws2 =>
+      simp only [join, List.mem_append, List.mem_cons, List.not_mem_nil, or_false] at hc
+      rcases hc with (hc | hc) | hc
+      · exact Or.inr ⟨w, by simp, hc⟩
+      · exact Or.inl hc
+      · rcases ih hc with h | ⟨w', hw', h⟩
+        · exact Or.inl h
+        · exact Or.inr ⟨w', by simp [hw'], h⟩
+
+theorem strV6_chars (n : Nat) : ∀ c ∈ strV6 n, isHexDigit c = true ∨ c = ':' := by
+  intro c hc
+  unfold strV6 at hc
+  rcases mem_join ':' _ c hc with h | ⟨p, hp, h⟩
+  · exact Or.inr h
+  · rcases compressWith_mem _ _ p hp with rfl | hp
+    · simp at h
+    · rw [List.mem_map] at hp
+      obtain ⟨g, hg, rfl⟩ := hp
+      exact Or.inl ((toHex_props g (hextets_lt n g hg)).2.2 c h).1
+
+theorem strV6_ne (n : Nat) (x : Char) (hx : isHexDigit x = false) (hd : x ≠ ':') : ∀ c ∈ strV6 n, c ≠ x := by
+  intro c hc
+  rcases strV6_chars n c hc with h | h
+  · rintro rfl; rw [h] at hx; cases hx
+  · rw [h]; exact fun e => hd e.symm
+
+theorem stdV6Addr_strV6 (n : Nat) (h : n < 2 ^ 128) : stdV6Addr (strV6 n) = .ok n := by
+  unfold stdV6Addr
+  rw [contains_false _ '/' (strV6_ne n '/' (by decide) (by decide)),
+    contains_false _ '%' (strV6_ne n '%' (by decide) (by decide))]
+  simp [stdV6Int_strV6 n h]
+
+theorem finishNet_true (w packed len : Nat) (h : packed &&& ipIntFromPrefix w len = packed) :
+    finishNet w true packed len = .ok (packed, len) := by
+  unfold finishNet; simp [h]
+
+theorem stdV6Net_cidr (strict : Bool) (ip len : Nat) (h : ip < 2 ^ 128) (hl : len ≤ 128)
+    (hs : strict = true → ip &&& ipIntFromPrefix 128 len = ip) :
+    stdV6Net strict (strV6 ip ++ '/' :: toDec len) = .ok (ip &&& ipIntFromPrefix 128 len, len) := by
+  unfold stdV6Net splitOptionalNetmask
+  rw [splitOn_slash _ _ (strV6_ne ip '/' (by decide) (by decide)) (toDec_ne len '/' (by decide))]
+  simp only [bind, Except.bind, stdV6Addr_strV6 ip h, makeNetmask6, prefixString_toDec 128 len hl]
+  cases strict with
+  | false => exact finishNet_false 128 ip len
+  | true => rw [finishNet_true 128 ip len (hs rfl), hs rfl]
+
+theorem mk6_net_lt (ip len : Nat) (hip : ip < 2 ^ 128) : (mk6 ip len).net < 2 ^ 128 := and_lt ip _ 128 hip
+
+section V6
+variable (ip len : Nat) (hip : ip < 2 ^ 128) (hlen : len ≤ 128)
+include hip hlen
+
+theorem V6.network_mk6 : V6.network (mk6 ip len) = .ok ((mk6 ip len).net, len) := by
+  unfold V6.network V6.compressed
+  have := stdV6Net_cidr true (mk6 ip len).net len (mk6_net_lt ip len hip) hlen (fun _ => and_mask_idem ip _)
+  rw [show (mk6 ip len).len = len from rfl, this]
+  simp only [mk6, and_mask_idem]
+
+theorem V6.asCidrNet_mk6 :
+    V6.asCidrNet (mk6 ip len) = .ok (strV6 (mk6 ip len).net ++ '/' :: toDec len) := by
+  unfold V6.asCidrNet
+  rw [V6.network_mk6 ip len hip hlen]; rfl
+
+omit hlen in
+theorem V6.asDecimal_mk6 : V6.asDecimal (mk6 ip len) = .ok ip := by
+  unfold V6.asDecimal V6.exploded mk6
+  simp only [sumPow_exploded ip hip]; rfl
+
+omit hip hlen in
+theorem explodedV6_ne (n : Nat) (x : Char) (hx : isHexDigit x = false) (hd : x ≠ ':') : ∀ c ∈ explodedV6 n, c ≠ x := by
+  intro c hc
+  unfold explodedV6 at hc
+  rcases mem_join ':' _ c hc with h | ⟨p, hp, h⟩
+  · rw [h]; exact fun e => hd e.symm
+  · rw [List.mem_map] at hp
+    obtain ⟨g, _, rfl⟩ := hp
+    rintro rfl; rw [(hex4_chars g c h).1] at hx; cases hx
+
+theorem V6.asDecimalNetwork_mk6 : V6.asDecimalNetwork (mk6 ip len) = .ok (mk6 ip len).net := by
+  unfold V6.asDecimalNetwork
+  rw [V6.network_mk6 ip len hip hlen]
+  simp only [bind, Except.bind]
+  rw [splitOn_slash _ _ (explodedV6_ne _ '/' (by decide) (by decide)) (toDec_ne len '/' (by decide))]
+  simp only [List.headD]
+  rw [sumPow_exploded (mk6 ip len).net (mk6_net_lt ip len hip)]; rfl
+
+theorem V6.copy_mk6 : V6.copy (mk6 ip len) = .ok (mk6 ip len) := by
+  unfold V6.copy
+  rw [V6.asCidrNet_mk6 ip len hip hlen]
+  simp only [bind, Except.bind, V6.ipStr]
+  have : (mk6 ip len).ip = ip := rfl
+  rw [this, stdV6Addr_strV6 ip hip]
+  simp only
+  rw [stdV6Net_cidr true (mk6 ip len).net len (mk6_net_lt ip len hip) hlen (fun _ => and_mask_idem ip _)]
+  simp only [pure, Except.pure, mk6, and_mask_idem]
+
+end V6
+
+theorem V6.fromInt_ok (n : Nat) (h : n < 2 ^ 128) : V6.fromInt (Int.ofNat n) = .ok (mk6 n 128) := by
+  unfold V6.fromInt
+  have : n ≤ Gen.ipv6MaxInt := by unfold Gen.ipv6MaxInt; omega
+  simp only [this, if_true, finishNet_false]
+  rfl
+
 end Ccp.IPText
